@@ -25,6 +25,7 @@ import (
 	"os"
 	"os/exec"
 	"path/filepath"
+	"regexp"
 	"sort"
 	"strings"
 	"sync"
@@ -43,6 +44,8 @@ const (
 	shutdown = "\x2b\xc1\x85\x63\x8d\x71\x65\x6d"
 	magic1   = "\x01\x23\x45\x67\x89\xab\xcd\xef"
 )
+
+var hexaddr = regexp.MustCompile(`0x[0-9a-f]+`)
 
 type stateInfo struct {
 	Off  uint64
@@ -332,6 +335,52 @@ func buildDb(dir string, r *rand.Rand, t *lib.Trace) *dbInfo {
 	return info
 }
 
+// buildPageEdge builds a database whose first persisted state record straddles a 4 KB page
+// boundary (the record starts 20 bytes before it): Repair maps the file read-only, so bytes of a
+// cut-short record that lie beyond the last page of the file do not exist.
+func buildPageEdge(dir string, t *lib.Trace) *dbInfo {
+	os.MkdirAll(dir, 0755)
+	file := filepath.Join(dir, "x.db")
+	build := func(fill int) *dbInfo {
+		os.Remove(file)
+		info := &dbInfo{file: file}
+		db, err := db19.CreateDatabase(file)
+		if err != nil {
+			panic(err)
+		}
+		db19.StartConcur(db, time.Hour)
+		db.Create(&schema.Schema{Table: "t0", Columns: []string{"k", "a", "b"},
+			Indexes: []schema.Index{{Mode: 'k', Columns: []string{"k"}}, {Mode: 'i', Columns: []string{"a"}}}})
+		for i, f := range []int{fill, 6} {
+			ut := db.NewUpdateTran()
+			ut.Output(nil, "t0", mkrec(fmt.Sprintf("k%05d", i), "a1", strings.Repeat("y", f)))
+			if s := ut.Complete(); s != "" {
+				panic(s)
+			}
+			st := db.Persist()
+			info.states = append(info.states, stateInfo{Off: st.Off, Snap: snapshot(db)})
+		}
+		last := snapshot(db)
+		db.Close()
+		full, _ := os.ReadFile(file)
+		off := uint64(len(full) - tailSize - stateLen)
+		if off != info.states[len(info.states)-1].Off {
+			info.states = append(info.states, stateInfo{Off: off, Snap: last})
+		}
+		info.full = full
+		return info
+	}
+	a := build(1000)
+	d := (2*4096 - 20 - int(a.states[0].Off%4096)) % 4096
+	b := build(1000 + d)
+	if b.states[0].Off%4096 == 4096-20 {
+		t.Count("page-edge-db=hit")
+	} else {
+		t.Count("page-edge-db=miss")
+	}
+	return b
+}
+
 func main() {
 	if len(os.Args) >= 4 && os.Args[1] == "worker" {
 		worker(os.Args[2], os.Args[3])
@@ -375,7 +424,17 @@ func main() {
 	for d := 1; d <= ndb; d++ {
 		dbs = append(dbs, buildDb(filepath.Join(scratch, fmt.Sprintf("db%d", d)), r, t))
 	}
+	pe := buildPageEdge(filepath.Join(scratch, "db-pageedge"), t)
 	os.Stdout = stdout
+	{
+		o := int(pe.states[0].Off)
+		P := (o/4096 + 1) * 4096
+		for _, c := range []int{o + 7, o + 8, P - 8, P - 4, P - 1, P, P + 1, o + 35, o + 36} {
+			for _, fill := range []string{"none", "zero", "garbage"} {
+				jobs = append(jobs, job{Db: ndb + 1, File: pe.file, Cut: c, Fill: fill, Seed: r.Int63()})
+			}
+		}
+	}
 	per := (total - len(jobs)) / (ndb * 3)
 	for d := 1; d <= ndb; d++ {
 		info := dbs[d]
@@ -398,7 +457,14 @@ func main() {
 		r.Shuffle(len(near), func(i, j int) { near[i], near[j] = near[j], near[i] })
 		// always keep the cuts right at each state's end and inside each state record
 		for _, s := range info.states {
-			cutset[int(s.Off)+36] = true
+			e := int(s.Off) + stateLen
+			cutset[e] = true
+			// a state written by Close is followed by the shutdown marker: cut inside and right
+			// after the marker (the latter is an intact closed file and must open directly)
+			if e+tailSize <= n && string(info.full[e:e+tailSize]) == shutdown {
+				cutset[e+tailSize] = true
+				cutset[e+3] = true
+			}
 		}
 		for _, c := range near {
 			if len(cutset) >= per*3/4 {
@@ -422,6 +488,7 @@ func main() {
 			}
 		}
 	}
+	dbs = append(dbs, pe) // index ndb+1
 	for i := range jobs {
 		jobs[i].ID = i
 	}
@@ -495,8 +562,8 @@ func main() {
 				// the worker died in case `started` (or before starting one)
 				msg := fmt.Sprint(werr)
 				if s := stderr.String(); s != "" {
-					first := strings.SplitN(strings.TrimSpace(s), "\n", 3)
-					msg += " | " + strings.Join(first[:min(2, len(first))], " | ")
+					first := strings.SplitN(strings.TrimSpace(s), "\n", 4)
+					msg += " | " + hexaddr.ReplaceAllString(strings.Join(first[:min(3, len(first))], " | "), "0x..")
 				}
 				if len(msg) > 300 {
 					msg = msg[:300]
@@ -541,7 +608,11 @@ func main() {
 		}
 		desc := fmt.Sprintf("db%d (%d bytes, state ends %s) cut=%d fill=%s seed=%d", j.Db, len(info.full), endsArg, j.Cut, j.Fill, j.Seed)
 		if crashed[j.ID] != "" || res == nil {
-			t.Fail("process-crash", desc+" : the process running OpenDatabase/Repair/CheckDatabase died: "+crashed[j.ID])
+			sig := "process-crash"
+			if strings.Contains(crashed[j.ID], "SIGBUS") || strings.Contains(crashed[j.ID], "fault") {
+				sig = "process-crash-sigbus"
+			}
+			t.Fail(sig, desc+" : the process running OpenDatabase/Repair/CheckDatabase died: "+crashed[j.ID])
 			t.Count("outcome=process-crash")
 			continue
 		}
